@@ -161,6 +161,24 @@ def step (st : St) (op : String) : St × Option String :=
         | .error _ => "err"
       let verdict := if got == "err" || got == want then "sound" else "UNSOUND"
       (st, some (verdict ++ " ## pred=" ++ pred))
+  | "dlobs" :: rest =>
+    -- C03 judge for a bundle download: `tree` = the uploaded files, `st` = ok|err reported by the
+    -- download, `dest` = what the destination holds afterwards. Sound iff (an error was reported
+    -- or every file arrived) and no destination file holds bytes other than the stored ones.
+    let kv := kvs rest
+    let tree := (((kvGet kv "tree").getD "").splitOn ";").filterMap fun t =>
+      match t.splitOn "@" with
+      | [n, c] => some (n, showBytes (parseContent c))
+      | _ => none
+    let dest := (((kvGet kv "dest").getD "").splitOn ";").filter (· ≠ "") |>.filterMap fun t =>
+      match t.splitOn "@" with
+      | [n, h] => some (n, h)
+      | _ => none
+    let status := (kvGet kv "st").getD "err"
+    let noAltered := dest.all fun d => tree.any fun t => t.1 == d.1 && t.2 == d.2
+    let complete := tree.all fun t => dest.any fun d => t.1 == d.1 && t.2 == d.2
+    let ok := noAltered && (status == "err" || complete)
+    (st, some (if ok then "sound" else "UNSOUND"))
   | _ => (st, none)
 
 def handler : Handler St := { init := {}, step := step }
